@@ -173,6 +173,10 @@ fn align_up(len: usize, alignment: usize) -> usize {
     len + (len.wrapping_neg() & (alignment - 1))
 }
 
+#[cfg(googlefonts_fontations_verif)]
+#[path = "/verif/harness/incrate/glyf_memory.rs"]
+mod verif_harness;
+
 #[cfg(test)]
 mod tests {
     use super::*;
